@@ -40,6 +40,30 @@ def cyclic_models():
     yield "one-scc-overlapping-cycles", ordered(["n2", "n5", "n3", "n4", "n0", "n7", "n6", "n1"],
                                                 {"n2": "and", "n5": "input", "n3": "buf", "n4": "not", "n0": "buf", "n7": "or", "n6": "input", "n1": "nor"},
                                                 [("n2", "n4"), ("n3", "n2"), ("n3", "n1"), ("n4", "n7"), ("n4", "n1"), ("n0", "n7"), ("n0", "n2"), ("n7", "n3"), ("n7", "n1"), ("n6", "n7"), ("n1", "n0")], ["n1", "n4"])
+    for t1, t2 in (("or", "or"), ("and", "or"), ("nand", "nor")):
+        yield f"two-loops-through-one-node-{t1}-{t2}", ordered(["a", "b", "e", "v1", "v2", "u", "w"], {"a": "input", "b": "input", "e": "input", "v1": t1, "v2": t2, "u": "and", "w": "xor"},
+                                                             [("v1", "u"), ("v2", "u"), ("e", "u"), ("a", "v1"), ("u", "v1"), ("b", "v2"), ("u", "v2"), ("v1", "w"), ("v2", "w")], ["u", "w"])
+    base2 = {"x": ("input", []), "y": ("input", []), "p": ("and", ["x", "q"]), "q": ("or", ["p", "r"]), "r": ("and", ["y", "s"]), "s": ("or", ["r", "p"]), "o": ("xor", ["q", "s"])}
+    pools = [["n%d" % i for i in range(7)], list("pqrstuv"), ["k%d_" % (i * 7) for i in range(7)], ["zz", "a1", "m", "b7", "c", "q9", "e"]]
+    for pi, pool in enumerate(pools):
+        for rot in (0, 3, 5):
+            names = pool[rot:] + pool[:rot]
+            ren = dict(zip(base2, names))
+            yield f"two-loops::naming{pi}.{rot}", build({ren[n]: (t, [ren[f] for f in fi]) for n, (t, fi) in base2.items()}, outputs=[ren["o"], ren["q"]])
+    # several independent loops (several cut nodes): which auxiliary input belongs to which feedback node must not
+    # depend on set order - explored through namings
+    for ni, tag in enumerate(["", "x", "_k", "q9", "zz", "m0", "w_", "b7"]):
+        spec = {}
+        outs = []
+        for j in range(3):
+            s_, r_, q_, qb_ = f"s{tag}{j}", f"r{tag}{j}", f"q{tag}{j}", f"qb{tag}{j}"
+            spec[s_] = ("input", [])
+            spec[r_] = ("input", [])
+            spec[q_] = ("nor", [r_, qb_])
+            spec[qb_] = ("nor", [s_, q_])
+            outs.append(q_)
+        yield f"three-latches::naming{ni}", build(spec, outputs=outs)
+    yield "hold-loops", build({"en": ("input", []), "d": ("input", []), "m": ("or", ["m_hold", "d"]), "m_hold": ("and", ["en", "m"]), "n": ("and", ["n_hold", "d"]), "n_hold": ("or", ["en", "n"])}, outputs=["m", "n"])
     yield "acyclic-control", build({"a": ("input", []), "b": ("input", []), "g": ("nand", ["a", "b"]), "h": ("nor", ["g", "a"])}, outputs=["h"])
 
 
